@@ -562,8 +562,9 @@ func (h *Runner) Exec(st Step) Obs {
 				fr = append(fr, lfs.WALFrameSpec{Pgno: uint32(f[0]), Data: d})
 				tx.Writes[uint32(f[0])] = d
 			}
-			// SQLite always rewrites page 1 when the size changes
-			if _, ok := tx.Writes[1]; !ok {
+			// SQLite rewrites page 1 when the size changes; a plain update in WAL mode (the change counter is not used
+			// there) leaves it alone
+			if _, ok := tx.Writes[1]; !ok && st.NewSize != uint32(len(h.Ref.Pages)) {
 				d := append([]byte(nil), h.Ref.Pages[0]...)
 				lfs.SetHeader(d, ps, st.NewSize, true)
 				fr = append(fr, lfs.WALFrameSpec{Pgno: 1, Data: d})
